@@ -94,6 +94,19 @@ META["C12"] = {
     "design_ref": "DESIGN.md §7 C12",
 }
 
+META["C02"] = {
+    "text": "Bounded symbolic model checking of the real DBlockSync + SyncBlock (and the scheduled routines they trigger) on the two-layer (committed/pending) store with a CRASH ORACLE: in 7 scenarios the process is killed at every DB-API call of a 2-block run; the database a new process then opens holds exactly the ledger of the uninterrupted run at its recorded sync height (every table compared), exactly one version row per height, and resuming reaches the uninterrupted ledger. Every block-application harness additionally monitors that no write bypasses the block transaction.",
+    "note": "SQLite commit atomicity is the trusted contract (a kill = connections dropped without commit; natively replayed by closing the SQLite connections under the running code); blocks without tracked entries in the loop harness; NewPegnetd's resume step replicated, not executed",
+    "design_ref": "DESIGN.md §7 C02",
+    "technique": "bounded symbolic execution of the real Go code (go/ssa -> SMT, z3 5.1) with a crash oracle over every DB-API call; crash points replayed on real SQLite",
+}
+META["C10"] = {
+    "text": "Same loop harness with a FAULT ORACLE: every single DB-API call of the run fails once (returns an error, no effect), or one upstream Factom request fails once; after the loop's own retry the ledger must equal the fault-free ledger. Found D5 (developer payout / mint-burn errors swallowed; fixed) and reports D6 (result of NullifyBurnAddress discarded) as KNOWN-FINDING.",
+    "note": "single transient fault; multiFetch goroutine faults and the unchecked status updates of the transaction/holding passes need entries in the blocks (not in this harness yet); faults natively replayed through a counting wrapper around the real SQLite driver",
+    "design_ref": "DESIGN.md §7 C10",
+    "technique": "bounded symbolic execution of the real Go code (go/ssa -> SMT, z3 5.1) with a fault oracle over every DB-API call and upstream request; faults replayed on real SQLite",
+}
+
 NOT_APPLICABLE = {}
 for i in range(1, 21):
     p = "C%02d" % i
